@@ -160,7 +160,7 @@ PLANS = {
     "C10": dict(mc=[MC_INVALID1_Q, MC_INVALIDF_Q], gen=GEN_GENERAL, tc=[TC_FIXEDI_Q, TC_MODIFY_Q, TG_NEARF_Q], tc_max=2500),
     "C11": dict(mc=[MC_BATCH_Q], gen=GEN_GENERAL, tc=[TC_MODIFY_Q, TG_NEARB_Q, TG_CLOSED_Q], tc_max=4000),
     "C12": dict(mc=[MC_INVALID1_Q, MC_INVALIDF_Q], gen=GEN_GENERAL, tc=[TC_CANCEL_Q, TG_NEARF_Q, TG_CLOSED_Q], tc_max=2500),
-    "C13": dict(mc=[MC_BATCH_Q], gen=GEN_GENERAL + GEN_LONG[1:] + GEN_PARAMS[:1], tc=[TC_EXT_Q, TC_EXT2_Q, TG_EXT_Q], tc_max=12000),
+    "C13": dict(mc=[MC_BATCH_Q], gen=GEN_GENERAL + GEN_LONG[1:] + GEN_PARAMS[:1], tc=[TC_EXT_Q, TC_EXT2_Q, TG_EXT_Q, TG_SOLD0_Q], tc_max=12000),
     "C15": dict(mc=[MC_GENESIS_Q], tc=[TC_GENESIS_Q], tc_max=3000, gen=[dict(g, consts=dict(g["consts"], WithGenesis=True, KindBag=("<-", "BagGenesis"),
                                                  Templates=set(g["consts"]["Templates"]) | {"Bx"})) for g in GEN_GENERAL]),
     "C16": dict(mc=[MC_BATCH_Q, MC_FIXED_Q], tc=[TC_EXT_Q, TG_SOLD0_Q], tc_max=2500,
